@@ -19,7 +19,7 @@ steps until no immutable memtable is left, and operations that do not change wha
 -/
 namespace Badger
 
-theorem openMems_nil (ro : Bool) : openMems ro [] = .ok ([], []) := rfl
+theorem openMems_nil (ro : Bool) : openMems false ro [] = .ok ([], []) := rfl
 
 theorem listFiles_none (F : KFs) (mk : Nat → Path) (B : Nat) (h : ∀ n, F (mk n) = none) :
     listFiles F mk B = [] := by
@@ -38,7 +38,7 @@ theorem recoverF_ok_nomem (ro : Bool) (F : KFs) (B : Nat) (tset : List (Nat × N
       r.tables = tset.map (fun x => { id := x.1, level := x.2, ents := cont x.1 }) ∧ r.imms = [] ∧
       (ro = true → r.ops = ((listFiles F .sst B).filter (fun x => (aget x.1 tset).isNone)).map
         (fun x => FsOp.unlink (.sst x.1)) ++ [.syncDir] ++
-        (match openVlogs true (lastFid (listFiles F .vlog B)) (listFiles F .vlog B) with
+        (match openVlogs false true (lastFid (listFiles F .vlog B)) (listFiles F .vlog B) with
          | .ok ops => ops | .error _ => [])) := by
   obtain ⟨sets, sz, hf, hr⟩ := hm
   have hvl : ∀ x ∈ listFiles F .vlog B, x.2.size ≠ .zero := by
@@ -46,7 +46,7 @@ theorem recoverF_ok_nomem (ro : Bool) (F : KFs) (B : Nat) (tset : List (Nat × N
   obtain ⟨vops, hov⟩ := openVlogs_ok ro (lastFid (listFiles F .vlog B)) _ hvl
   have hot := openTables_ok F cont tset ht
   have hmems : listFiles F .mem B = [] := listFiles_none F .mem B hw
-  unfold recoverF
+  unfold recoverF recoverG
   simp only [hf, replayManifest, hr, hmems, openMems_nil, hot, hov]
   refine ⟨_, rfl, rfl, rfl, ?_⟩
   intro hro
@@ -55,7 +55,7 @@ theorem recoverF_ok_nomem (ro : Bool) (F : KFs) (B : Nat) (tset : List (Nat × N
 
 /-- in read-only mode `valueLog.open` touches nothing -/
 theorem openVlogs_ro_nil (m : Nat) (l : List (Nat × Inode)) (ops : List FsOp)
-    (h : openVlogs true m l = .ok ops) : ops = [] := by
+    (h : openVlogs false true m l = .ok ops) : ops = [] := by
   induction l generalizing ops with
   | nil => simp [openVlogs] at h; exact h
   | cons x xs ih =>
@@ -63,7 +63,7 @@ theorem openVlogs_ro_nil (m : Nat) (l : List (Nat × Inode)) (ops : List FsOp)
     simp only [openVlogs] at h
     split at h
     · cases h
-    · cases hr : openVlogs true m xs with
+    · cases hr : openVlogs false true m xs with
       | error e => rw [hr] at h; cases h
       | ok o =>
         rw [hr] at h
@@ -113,7 +113,7 @@ theorem recover_closed (R : ViewRel) (s : PState) (fs : Fs) (ro : Bool) (h : Inv
       | none => rw [hg] at h2; cases h2
       | some _ => simp
     rw [hfil]
-    cases hv : openVlogs true (lastFid (listFiles fs.file .vlog (crashKill fs).bound))
+    cases hv : openVlogs false true (lastFid (listFiles fs.file .vlog (crashKill fs).bound))
         (listFiles fs.file .vlog (crashKill fs).bound) with
     | error e => simp
     | ok ops => have := openVlogs_ro_nil _ _ _ hv; subst this; simp
